@@ -219,7 +219,7 @@ pub fn generate(seed: u64, thorough: bool) -> Vec<String> {
     let mut out = vec![];
     let mut grams = fixed_grams();
     let nfixed = grams.len();
-    let n = if thorough { 1500 } else { 300 };
+    let n = if thorough { 3000 } else { 300 };
     for i in 0..n {
         let big_k = thorough && i % 4 == 3;
         let g = if i % 2 == 0 {
@@ -233,7 +233,7 @@ pub fn generate(seed: u64, thorough: bool) -> Vec<String> {
     }
     for (i, g) in grams.iter().enumerate() {
         let big_k = thorough && i >= nfixed && (i - nfixed) % 4 == 3;
-        let top = if big_k { 5 } else { 3 };
+        let top = if big_k { 6 } else { 3 };
         let gs = g.show();
         let nts = g.nts();
         let ks: Vec<usize> = if i < nfixed { (0..=4).collect() } else { vec![top, rng.range(0, top)] };
